@@ -7,6 +7,7 @@ flock 9
 cd /repo || exit 2
 git diff --quiet || { echo "repo dirty"; exit 2; }
 trap 'git -C /repo checkout -q -- .' EXIT
-git diff "$sha^" "$sha" | git apply -R || exit 2
+# several commits can be given as sha1+sha2 (reverted right to left: put the later commit last)
+for one in $(echo "$sha" | tr '+' '\n' | tac); do git diff "$one^" "$one" | git apply -R || exit 2; done
 for c in "$@"; do (cd /verif && ./check "$c" quick > /tmp/revert-$$.out 2>&1; code=$?; head -3 /tmp/revert-$$.out | cut -c1-260; echo "REVERT $sha $c exit=$code"; rm -f /tmp/revert-$$.out); done
 ) 9>/tmp/repo-patch.lock
